@@ -311,7 +311,7 @@ def enc_vis(a):
 def gen_vfw_case(rng, c06):
     """A store as C06 draws them (independent chunkings, lost chunks, a flags stream of another length), plus raw
     preselect bounds that leave something."""
-    case = c06.gen_case(rng, path='v4', small=True)
+    case = c06.gen_case(rng, path='v4', small=rng.random() < 0.6)
     T, F = max(case['nd'].values()), case['F']
     pre = []
     for n in (T, F):
